@@ -96,7 +96,7 @@ Print Assumptions C01_nr_is_well_typed.
 
 (* per-instruction agreement (b) of the design: every instruction without sub-programs *)
 Theorem C01_instr_agree : forall e, env_okb e = true -> forall i k fn s s1 vis,
-  py_simple e i = Some (k, fn) -> tc_simple i s = Some s1 -> styped vis s ->
+  py_simple e i = Some (k, fn) -> tc_simple true i s = Some s1 -> styped vis s ->
   exists args rest, vis = args ++ rest /\ length args = k /\
     match ref_simple e i (map erase vis) with
     | Done r => exists outs, fn args = POk outs /\ map erase (outs ++ rest) = r /\ styped (outs ++ rest) s1
